@@ -2,6 +2,7 @@ CONSTANTS Menu = "C02"
  MaxTail = 1
  Layouts = {"siblings", "nested", "root"}
  AllPlants = FALSE
+ Lite = FALSE
  Flavours <- Flav_two
 INIT HInit
 NEXT HNext
